@@ -3,12 +3,12 @@
    strictness, cut-off and ranking follow their definitions.
 
    Abstract world
-     descriptor   the parameter structure of a model: thetas of the groups CL, V
-                  (individual parameters that may carry an eta) and P (peripheral
-                  parameters, never an eta), each "est" | "fix"; the eta of CL / V:
+     descriptor   the parameter structure of a model: thetas of the groups CL, V, P
+                  (peripheral parameters), each "est" | "fix"; the eta of CL / V:
                   "est" | "fixnz" (variance fixed to a non-zero value) | "fix0"
-                  (variance fixed to 0: not a random effect) | "none"; sigma
-                  "est" | "fix".  The driver realises every descriptor as a real
+                  (variance fixed to 0: not a random effect) | "none"; etas on the
+                  peripheral parameters; a joint (block) IIV distribution with
+                  estimated or fixed covariances; IOV on CL; sigma "est" | "fix".  The driver realises every descriptor as a real
                   model derived from pheno.
      model        [d : descriptor, ofv : 80|90|95|100|0 (0 encodes NaN), ms :
                   minimization_successful, tc : termination cause, fzg : warning
@@ -46,30 +46,48 @@ Data   == JsonDeserialize(IOEnv.DATA)       \* [lnobs, lnind]  (milli)
 VARIABLES kind, g, ms, cfg, alpha, phase
 vars == <<kind, g, ms, cfg, alpha, phase>>
 
-\* chi-square upper quantiles x 1000, df = 1..6
+\* chi-square upper quantiles x 1000, df = 1..10
 Chi2 == [a \in {"0.05", "0.01"} |->
-           IF a = "0.05" THEN <<3841, 5991, 7815, 9488, 11070, 12592>>
-                         ELSE <<6635, 9210, 11345, 13277, 15086, 16812>>]
+           IF a = "0.05" THEN <<3841, 5991, 7815, 9488, 11070, 12592, 14067, 15507, 16919, 18307>>
+                         ELSE <<6635, 9210, 11345, 13277, 15086, 16812, 18475, 20090, 21666, 23209>>]
 SeqSet(s) == {s[i] : i \in 1..Len(s)}
 Abs(x) == IF x < 0 THEN 0 - x ELSE x
 
 \* ------------------------------------------------------------------ parameter counts of a descriptor
+\* The IIV OMEGA matrix of a descriptor: variances of the etas of CL, V ("est" | "fixnz" | "fix0" | "none") and, with
+\* etaP = "diag", of the two peripheral parameters; covariances from `block`: "est" (CL-V: 1 estimated covariance),
+\* "fix" (the whole CL-V block fixed), "est3" (CL-V-QP1: 3 estimated covariances).  iov = "est": inter-occasion
+\* variability on CL - one omega that is a random-effects parameter but NOT an IIV omega.
 Cnt(s, v) == Cardinality({i \in 1..Len(s) : s[i] = v})
-RandomGroup(eta) == eta \in {"est", "fixnz"}          \* a 0-FIX eta is not a random effect
-NEstOmega(d) == (IF d.etaCL = "est" THEN 1 ELSE 0) + (IF d.etaV = "est" THEN 1 ELSE 0)
-NOmega(d) == (IF d.etaCL # "none" THEN 1 ELSE 0) + (IF d.etaV # "none" THEN 1 ELSE 0)
+NEstVar(d) == (IF d.etaCL = "est" THEN 1 ELSE 0) + (IF d.etaV = "est" THEN 1 ELSE 0) + (IF d.etaP = "diag" THEN 2 ELSE 0)
+NVar(d) == (IF d.etaCL # "none" THEN 1 ELSE 0) + (IF d.etaV # "none" THEN 1 ELSE 0) + (IF d.etaP = "diag" THEN 2 ELSE 0)
+NCov(d) == CASE d.block = "none" -> 0 [] d.block = "est" -> 1 [] d.block = "fix" -> 1 [] d.block = "est3" -> 3
+NEstCov(d) == IF d.block \in {"est", "est3"} THEN NCov(d) ELSE 0
+NIov(d) == IF d.iov = "est" THEN 1 ELSE 0
+\* documented: n_estimated_iiv_omega_parameters = every estimated element (variance or covariance) of the IIV OMEGA matrix
+NEstIivOmega(d) == NEstVar(d) + NEstCov(d)
+NEstOmega(d) == NEstIivOmega(d) + NIov(d)                 \* all estimated variance-covariance parameters of the etas
 NSig(d) == IF d.sig = "est" THEN 1 ELSE 0
 K(d) == Cnt(d.thCL, "est") + Cnt(d.thV, "est") + Cnt(d.thP, "est") + NEstOmega(d) + NSig(d)    \* estimated parameters
-NPar(d) == Len(d.thCL) + Len(d.thV) + Len(d.thP) + NOmega(d) + 1                              \* all parameters
-\* random-effects parameters: variance parameters and the fixed effects of individual parameters that carry an eta
-NRandom(d) == NEstOmega(d) + (IF RandomGroup(d.etaCL) THEN Cnt(d.thCL, "est") ELSE 0)
-                           + (IF RandomGroup(d.etaV) THEN Cnt(d.thV, "est") ELSE 0)
+NPar(d) == Len(d.thCL) + Len(d.thV) + Len(d.thP) + NVar(d) + NCov(d) + NIov(d) + 1              \* all parameters
+\* an individual parameter carries a random effect when it has an eta whose variance is not fixed to 0 (IIV or IOV)
+RandomCL(d) == d.etaCL \in {"est", "fixnz"} \/ d.iov = "est"
+RandomV(d) == d.etaV \in {"est", "fixnz"}
+RandomP(d) == d.etaP = "diag"
+\* random-effects parameters: variance-covariance parameters and the fixed effects of individual parameters with an eta
+NRandom(d) == NEstOmega(d) + (IF RandomCL(d) THEN Cnt(d.thCL, "est") ELSE 0)
+                           + (IF RandomV(d) THEN Cnt(d.thV, "est") ELSE 0)
+                           + (IF RandomP(d) THEN Cnt(d.thP, "est") ELSE 0)
 NFixed(d) == K(d) - NRandom(d)
 \* penalty = a * ln(n_obs) + b * ln(n_ind)
 BicCoef(d, bt) == CASE bt = "mixed" -> <<NFixed(d), NRandom(d)>>
                     [] bt = "fixed" -> <<K(d), 0>>
                     [] bt = "random" -> <<0, K(d)>>
-                    [] bt = "iiv" -> <<0, NEstOmega(d)>>
+                    [] bt = "iiv" -> <<0, NEstIivOmega(d)>>
+WellFormedDesc(d) == /\ (d.block \in {"est", "est3"} => d.etaCL = "est" /\ d.etaV = "est")
+                     /\ (d.block = "fix" => d.etaCL = "fixnz" /\ d.etaV = "fixnz")
+                     /\ (d.block = "est3" => d.etaP = "diag")
+                     /\ (d.etaP = "diag" => Len(d.thP) = 2)
 
 \* ------------------------------------------------------------------ strictness
 Rel(x, r, y) == CASE r = "<" -> x < y [] r = "<=" -> x <= y [] r = ">" -> x > y [] r = ">=" -> x >= y
@@ -191,7 +209,9 @@ RankLawsAt(T) ==
     /\ \A i \in 1..N : ~T.ok[i] => i \notin T.E                      \* a failed candidate is never ranked
     /\ \A i \in T.best : \A j \in T.E : T.key[i] >= T.key[j]         \* best = top of the eligible ones
 CountLaws == (kind = "desc" /\ cfg >= 1) => LET d == Descs[cfg] IN
+    /\ WellFormedDesc(d)
     /\ NFixed(d) >= 0 /\ NFixed(d) + NRandom(d) = K(d) /\ K(d) <= NPar(d)
+    /\ NEstIivOmega(d) <= NRandom(d) /\ BicCoef(d, "iiv")[2] + NIov(d) = NEstOmega(d)
     /\ BicCoef(d, "fixed")[1] = BicCoef(d, "random")[2]
 
 \* ------------------------------------------------------------------ emission
